@@ -11,6 +11,7 @@ def run(ctx):
     ctx.step(_p11a, ctx)
     ctx.step(_p11d, ctx)
     ctx.step(_p11f, ctx)
+    ctx.step(_p11i, ctx)
 
 
 def _leaves_only_param(g, e, param):
@@ -201,3 +202,31 @@ def _p11f(ctx):
         bad = x.ext_calls(PEER_BLOCK)
         ctx.add('P11f', 'T-REACH', r, not bad, 'no call that blocks on a peer is reachable' if not bad else
                 '%s can block inside the call: %s' % (short_fn(r), [x.describe(b) for b in bad][:3]), sub='noblock')
+
+
+def _p11i(ctx):
+    """wherever a futures receiver gives up its place on a stream (its consumer count is decremented), the producer
+    task list is drained afterwards on every path: a sink task parked because of that stream must be woken"""
+    F = ctx.F
+    n = 0
+    for name in sorted(F.fns):
+        f = F.fns[name]
+        if f['kind'] != 'AssocFn' or f.get('from_expansion') or name in F.fresh:
+            continue
+        adt = (f.get('impl_self') or {}).get('adt') or ''
+        if not re.search(r'multiqueue::FutInner(Uni)?Recv$', adt):
+            continue
+        g = ctx.graph(name, 'BCast')
+        x = g.x
+        decs = [a for a in x.atoms_on('ReaderMeta.num_consumers') if a.op == 'fetch_sub']
+        if not decs:
+            continue
+        n += 1
+        pn = _prod_notifies(g, x)
+        for a in decs:
+            ok = bool(pn) and x.must(a.nid, pn)
+            ctx.add('P11i', 'T-MUST', name, ok, 'leaving the stream is followed by draining the producer task list' if ok else
+                    '%s removes this handle from its stream (consumer count decremented) and can return without notifying the producer list: '
+                    'a sink task parked as Full because of that stream is never woken (the later Drop finds the handle already unsubscribed and does nothing)' % short_fn(name),
+                    where=g.where(a.nid), sub='leave#i%d' % g.nodes[a.nid].inst)
+    ctx.floor('P11i', n, 2, 'futures receiver functions that unsubscribe (the two Drop impls)')
